@@ -9,6 +9,7 @@ import unicodedata
 import z3
 from . import model, pattern
 from .util import *
+from .util import DOMAINS
 from .. import mir as MIR
 from ..interp import strip_lifetimes
 
@@ -16,6 +17,9 @@ from ..interp import strip_lifetimes
 # characters
 
 WS_CP = set([9, 10, 11, 12, 13, 32, 0x85, 0xA0, 0x1680, 0x2028, 0x2029, 0x202F, 0x205F, 0x3000] + list(range(0x2000, 0x200B)))
+
+
+_ASCII_WS = frozenset([9, 10, 11, 12, 13, 32])
 
 
 def is_cont(b):
@@ -39,7 +43,11 @@ def decode_at(bs, i):
     """-> (Sc char, width)"""
     b = bs[i]
     if not isinstance(b, int):
-        return Sc(z3.ZeroExt(24, b), 32), 1
+        e = z3.ZeroExt(24, b)
+        d = DOMAINS.get(b.get_id())
+        if d is not None:
+            DOMAINS[e.get_id()] = d
+        return Sc(e, 32), 1
     if b < 0x80:
         return Sc(b, 32), 1
     n = char_width_at(bs, i)
@@ -75,6 +83,9 @@ def _in_range(ch, lo, hi):
 def ch_is_whitespace(ch):
     if ch.concrete:
         return sc_bool(ch.v in WS_CP)
+    d = DOMAINS.get(ch.v.get_id())
+    if d is not None and not (d & _ASCII_WS):
+        return FALSE
     z = ch.z()
     return mk_bool(z3.Or(z == 32, _in_range(ch, 9, 13)))
 
@@ -607,6 +618,10 @@ def parse_int(P, s, w, signed, radix=10):
         return ok(Sc(val, w, signed))
     if radix != 10:
         raise Unsupported('symbolic parse with radix %d' % radix)
+    if not neg and all(not isinstance(b, int) for b in digits):
+        back = P.state.get('digits_of', {}).get(tuple(b.get_id() for b in digits))
+        if back is not None and back.w == w and back.s == signed:
+            return ok(back)
     conds = []
     for b in digits:
         if isinstance(b, int):
